@@ -1,4 +1,183 @@
----- MODULE RuleMeek ----
+------------------------------ MODULE RuleMeek ------------------------------
+(***************************************************************************)
+(* meek, warren (droop/rules/meek.py) and meek-prf (meek_prf.py).          *)
+(* Clause ids for meek-prf: PRF Reference Meek rule (A, B.1-B.4, C) as     *)
+(* quoted in meek_prf.py; for meek/warren the step names of meek.py (D.3   *)
+(* quota, D.4 winners, D.6 surplus, D.7 tests, D.8 keep factors).          *)
+(* A step runs up to the next logAction; the iterations in between are     *)
+(* internal, and each continuing iteration leaves a snapshot in `iters'    *)
+(* (the same snapshot the harness takes at the first V.div of D.8/B.2.f).  *)
+(***************************************************************************)
 EXTENDS Election
-Step_meek(s) == s
-====
+
+IsPrfM(h) == h.rule = "meek-prf"
+Rounds(h) == h.kind # "guarded" \/ h.g = 0          \* Guarded with guard digits ignores round='up'
+MMulUp(h, a, b) == IF Rounds(h) THEN VMulUp(h, a, b) ELSE VMul(h, a, b)
+MDivUp(h, a, b) == IF Rounds(h) THEN VDivUp(h, a, b) ELSE VDiv(h, a, b)
+Eps(h) == IF h.exactq THEN 0 ELSE 1
+
+M_Quota(h, votes) == VDiv(h, votes, VInt(h, h.seats + 1)) + Eps(h)        \* D.3 / B.2.b
+M_HasQuota(s, c) == IF s.h.exactq THEN VGT(s.h, s.vote[c], s.quota) ELSE s.vote[c] >= s.quota
+M_Complete(s) == Cardinality(HopefulS(s)) <= SeatsLeft(s) \/ SeatsLeft(s) <= 0
+
+(* keep value and remaining weight of one ballot at one candidate *)
+KeepW(h, kf, w) ==
+  IF h.rule = "warren" THEN LET keep == IF VLT(h, kf, w) THEN kf ELSE w IN <<keep, w - keep>>
+  ELSE IF h.rule = "meek" THEN <<VMul(h, w, kf), VMul(h, w, h.S - kf)>>                    \* OpenSTV MeekSTV variant
+  ELSE LET keep == MMulUp(h, w, kf) IN <<keep, w - keep>>                                   \* PRF B.2.a
+
+RECURSIVE DistStrict(_, _, _, _, _, _)
+DistStrict(h, kf, r, i, w, acc) ==
+  IF i > Len(r) \/ w <= 0 THEN acc
+  ELSE LET c == r[i] IN
+       IF kf[c] = 0 THEN DistStrict(h, kf, r, i + 1, w, acc)
+       ELSE LET kw == KeepW(h, kf[c], w) IN DistStrict(h, kf, r, i + 1, kw[2], [acc EXCEPT ![c] = @ + kw[1]])
+
+(* ballots with equal rankings (meek/warren only): recursive descent of meek.py dist();      *)
+(* IMPL: a rank without continuing candidates stops the descent (the rest goes to residual) *)
+RECURSIVE DistEq(_, _, _, _, _, _, _)
+RECURSIVE DistEqFold(_, _, _, _, _, _, _, _, _)
+DistEq(h, kf, cset, r, i, w, acc) ==
+  IF w = 0 \/ i > Len(r) THEN acc
+  ELSE LET cids == SelectSeq(r[i], LAMBDA c : c \in cset) IN
+       IF cids = <<>> THEN acc
+       ELSE DistEqFold(h, kf, cset, r, i, cids, 1, VDiv(h, w, VInt(h, Len(cids))), acc)
+DistEqFold(h, kf, cset, r, i, cids, k, cw, acc) ==
+  IF k > Len(cids) THEN acc
+  ELSE LET c == cids[k]
+           kw == KeepW(h, kf[c], cw)
+           a1 == [acc EXCEPT ![c] = @ + kw[1]]
+           a2 == DistEq(h, kf, cset, r, i + 1, kw[2], a1)
+       IN DistEqFold(h, kf, cset, r, i, cids, k + 1, cw, a2)
+
+Distribute(s) ==
+  LET h == s.h
+      cont == HopefulS(s) \cup ElectedS(s)
+      zero == [c \in CandS(s) |-> 0]
+      keptS == TLCEval([j \in 1 .. Len(h.lines) |-> DistStrict(h, s.kf, h.lines[j].r, 1, h.S, zero)])
+      keptE == TLCEval([j \in 1 .. Len(h.eq) |-> DistEq(h, s.kf, cont, h.eq[j].r, 1, h.S, zero)])
+      nv == TLCEval([c \in CandS(s) |->
+               IF c \in cont
+               THEN Sum([j \in 1 .. Len(h.lines) |-> keptS[j][c] * h.lines[j].m]) + Sum([j \in 1 .. Len(h.eq) |-> keptE[j][c] * h.eq[j].m])
+               ELSE s.vote[c]])
+  IN [s EXCEPT !.vote = nv, !.residual = h.n * h.S - Sum([c \in CandS(s) |-> IF c \in cont THEN nv[c] ELSE 0])]
+
+ContVotes(s) == Sum([c \in CandS(s) |-> IF c \in HopefulS(s) \cup ElectedS(s) THEN s.vote[c] ELSE 0])
+ElectedSurplus(s) == Sum([c \in CandS(s) |-> IF c \in ElectedS(s) THEN s.vote[c] - s.quota ELSE 0])
+
+(* sure losers at the current surplus (meek.batchDefeat): same grouping as PRF-WIGM B.2 *)
+RECURSIVE MGroupFold(_, _, _, _, _, _, _)
+MGroupFold(h, v, q, i, cv, gs, sur) ==
+  IF i > Len(q) THEN gs
+  ELSE LET c == q[i] IN
+       IF VGE(h, cv + sur, v[c]) THEN MGroupFold(h, v, q, i + 1, cv, [gs EXCEPT ![Len(gs)] = Append(@, c)], sur)
+       ELSE MGroupFold(h, v, q, i + 1, v[c], IF gs[Len(gs)] = <<>> THEN [gs EXCEPT ![Len(gs)] = <<c>>] ELSE Append(gs, <<c>>), sur)
+RECURSIVE MScanGroups(_, _, _, _, _, _, _, _, _)
+MScanGroups(h, v, gs, g, ncand, vote, maxg, maxDefeat, sur) ==
+  IF g > Len(gs) - 1 THEN maxg
+  ELSE LET n2 == ncand + Len(gs[g]) IN
+       IF n2 > maxDefeat THEN maxg
+       ELSE LET v2 == vote + Sum([i \in 1 .. Len(gs[g]) |-> v[gs[g][i]]]) IN
+            MScanGroups(h, v, gs, g + 1, n2, v2, IF VLT(h, v2 + sur, v[gs[g + 1][1]]) THEN g ELSE maxg, maxDefeat, sur)
+RECURSIVE MConcat(_, _)
+MConcat(gs, k) == IF k = 0 THEN <<>> ELSE MConcat(gs, k - 1) \o gs[k]
+M_Batch(s, sur) ==
+  IF s.h.batch = "none" THEN <<>>
+  ELSE LET g0 == MGroupFold(s.h, s.vote, ByVoteAsc(s.vote, HopefulS(s)), 1, 0, << <<>> >>, sur)
+           gs == IF g0 = << <<>> >> THEN <<>> ELSE g0
+           maxg == MScanGroups(s.h, s.vote, gs, 1, 0, 0, 0, Cardinality(HopefulS(s)) - SeatsLeft(s), sur)
+       IN MConcat(gs, maxg)
+
+IterSnap(s) == [vote |-> s.vote, kf |-> s.kf, quota |-> s.quota, votes |-> s.votes, surplus |-> s.surplus, residual |-> s.residual]
+LogI(s, tag, mc, subj) ==      \* Log that also delivers the internal-iteration snapshots gathered since the previous action
+  LET s1 == Log(s, tag, mc, subj) IN
+  [s1 EXCEPT !.hist[Len(s1.hist)].iters = s.its, !.its = <<>>]
+UpdateKf(s) == [s EXCEPT !.kf = [c \in CandS(s) |-> IF c \in ElectedS(s)
+                                   THEN MDivUp(s.h, MMulUp(s.h, s.kf[c], s.quota), s.vote[c]) ELSE s.kf[c]]]   \* D.8 / B.2.f
+ZeroOut(s, c) == [s EXCEPT !.kf[c] = 0, !.vote[c] = 0]
+
+M_Finish(s) == [s EXCEPT !.pc = "finish", !.flag = FALSE]
+M_FinishStep(s) ==
+  IF HopefulS(s) # {}
+  THEN LET c == SetOrder(HopefulS(s))[1] IN
+       IF Cardinality(ElectedS(s)) < s.h.seats
+       THEN LET s1 == LogI([s EXCEPT !.st[c] = "E", !.pend[c] = FALSE], "elect", "elect_remaining", c) IN
+            IF IsPrfM(s.h) THEN s1 ELSE Distribute(s1)                       \* meek.py: distributeVotes() for reporting
+       ELSE LET s1 == ZeroOut(LogI([s EXCEPT !.st[c] = "D"], "defeat", "defeat_remaining", c), c) IN
+            IF IsPrfM(s.h) THEN s1 ELSE Distribute(s1)
+  ELSE LET v == Sum([c \in CandS(s) |-> IF c \in ElectedS(s) THEN s.vote[c] ELSE 0])
+           s1 == [s EXCEPT !.votes = v, !.residual = s.h.n * s.h.S - v]
+       IN [LogI(s1, "end", "end", 0) EXCEPT !.pc = "done"]
+
+M_Loop(s) ==
+  IF IF IsPrfM(s.h) THEN Cardinality(HopefulS(s)) > SeatsLeft(s) /\ SeatsLeft(s) > 0 ELSE ~M_Complete(s)
+  THEN [LogI([s EXCEPT !.round = s.round + 1], "round", "round", 0)
+          EXCEPT !.pc = "iter", !.istat = IF IsPrfM(s.h) THEN "iterate" ELSE "none", !.last = s.h.n * s.h.S]
+  ELSE M_FinishStep(M_Finish(s))
+
+(* D / B.3: exclude the lowest candidate; candidates within the surplus of the lowest are tied *)
+M_DefeatLow(s) ==
+  IF HopefulS(s) = {} THEN M_Loop(s)
+  ELSE LET low == TrueMin(s.vote, HopefulS(s))
+           tied == {c \in HopefulS(s) : VGE(s.h, low + s.surplus, s.vote[c])}
+           lc == FirstInTieOrder(s, tied)
+       IN IF Cardinality(tied) > 1 /\ ~s.flag
+          THEN LET s1 == LogTie(s, "tie", "defeat", tied, lc) IN
+               [s1 EXCEPT !.hist[Len(s1.hist)].iters = s.its, !.its = <<>>, !.pc = "defeatlow", !.flag = TRUE]
+          ELSE LET s1 == ZeroOut(LogI([s EXCEPT !.st[lc] = "D"], "defeat", IF s.istat = "omega" THEN "defeat_omega" ELSE "defeat_stable", lc), lc)
+                   s2 == IF IsPrfM(s.h) THEN s1 ELSE Distribute(s1)
+               IN [s2 EXCEPT !.pc = "loop", !.flag = FALSE]
+
+(* one iteration from its top.  An iteration that neither elects nor ends the round is an *)
+(* internal step: it updates the keep factors, leaves a snapshot in `its' and logs nothing *)
+M_Continue(s1, sur) == [UpdateKf([s1 EXCEPT !.last = sur, !.its = Append(@, IterSnap(s1))]) EXCEPT !.pc = "iter"]
+M_AfterElect(s) ==
+  LET sur0 == ElectedSurplus(s)
+      sur == IF IsPrfM(s.h) /\ sur0 < 0 THEN 0 ELSE sur0
+      s1 == TLCEval([s EXCEPT !.surplus = sur])
+  IN IF s.istat = "elected"
+     THEN (IF IsPrfM(s.h) THEN M_Loop([s1 EXCEPT !.pc = "loop"])
+           ELSE [LogI(s1, "iterate", "iterate_elected", 0) EXCEPT !.pc = "loop"])
+     ELSE IF IsPrfM(s.h)
+     THEN (IF VLT(s.h, sur, s.h.omega) THEN M_DefeatLow([s1 EXCEPT !.istat = "omega", !.pc = "defeatlow"])              \* B.2.e
+           ELSE IF VGE(s.h, sur, s.last) THEN M_DefeatLow([s1 EXCEPT !.istat = "stable", !.pc = "defeatlow", !.logs = Append(@, "log_stable")])
+           ELSE M_Continue(s1, sur))
+     ELSE (IF VLE(s.h, sur, s.h.omega) THEN [LogI(s1, "iterate", "iterate_omega", 0) EXCEPT !.pc = "defeatlow", !.istat = "omega"]   \* D.7
+           ELSE IF VGE(s.h, sur, s.last)
+           THEN [LogI([s1 EXCEPT !.logs = Append(@, "log_stable")], "iterate", "iterate_stable", 0) EXCEPT !.pc = "defeatlow", !.istat = "stable"]
+           ELSE LET batch == M_Batch(s1, sur) IN
+                IF batch # <<>>
+                THEN [LogI(s1, "iterate", "iterate_batch", 0) EXCEPT !.pc = "batch", !.q = SetOrder(SeqToSet(batch))]
+                ELSE M_Continue(s1, sur))
+M_ElectPhase(s) ==
+  LET L == SelectSeq(SetOrder(HopefulS(s)), LAMBDA c : M_HasQuota(s, c)) IN                 \* D.4 / B.2.c (IMPL: set order)
+  IF L # <<>> THEN [LogI([s EXCEPT !.st[L[1]] = "E", !.pend[L[1]] = FALSE], "elect", "elect", L[1]) EXCEPT !.pc = "iter_elect", !.istat = "elected"]
+  ELSE M_AfterElect(s)
+M_Iter(s) ==
+  LET s1 == TLCEval(Distribute(s))
+      v == ContVotes(s1)
+      s2 == TLCEval([s1 EXCEPT !.votes = v, !.quota = M_Quota(s.h, v)])
+  IN M_ElectPhase(s2)
+
+M_FirstPrefs(s) ==
+  LET h == s.h IN
+  [c \in CandS(s) |->
+     Sum([j \in 1 .. Len(h.lines) |-> IF h.lines[j].r[1] = c THEN h.lines[j].m * h.S ELSE 0])
+     + Sum([j \in 1 .. Len(h.eq) |-> IF c \in SeqToSet(h.eq[j].r[1]) THEN (h.S \div Len(h.eq[j].r[1])) * h.eq[j].m ELSE 0])]
+
+Step_meek(s) ==
+  CASE s.pc = "start" ->
+         LET s1 == [s EXCEPT !.kf = [c \in CandS(s) |-> IF s.st[c] = "H" THEN s.h.S ELSE 0],
+                             !.votes = s.h.n * s.h.S, !.quota = M_Quota(s.h, s.h.n * s.h.S), !.vote = M_FirstPrefs(s)]
+         IN [LogI(s1, "begin", "begin", 0) EXCEPT !.pc = "loop"]
+    [] s.pc = "loop" -> M_Loop(s)
+    [] s.pc = "iter" -> M_Iter(s)
+    [] s.pc = "iter_elect" -> M_ElectPhase(s)
+    [] s.pc = "batch" ->
+         IF s.q # <<>>
+         THEN LET c == s.q[1] IN
+              [Distribute(ZeroOut(LogI([s EXCEPT !.st[c] = "D"], "defeat", "defeat_certain", c), c)) EXCEPT !.q = Tail(s.q)]
+         ELSE M_Loop(s)
+    [] s.pc = "defeatlow" -> M_DefeatLow(s)
+    [] s.pc = "finish" -> M_FinishStep(s)
+=============================================================================
